@@ -41,7 +41,8 @@ EntryCase(sl, oo, i) ==
       ks  == {k \in UpdatedSlots(sl) : GN(oo, k) = f.name}
       c   == Content[sl[CHOOSE k \in ks : TRUE].c] IN
   [name   |-> f.name, old |-> f.data,
-   update |-> ks # {},                                              \* a failing cmp names this entry: the laws allow (on a passing run: demand) new data
+   update |-> ks # {},                                              \* a failing cmp names this entry: the laws allow new data
+   must   |-> ks # {} /\ \A j \in (i+1)..Len(oo.arch.files) : oo.arch.files[j].name # f.name,   \* ... and, for the last entry of that name, demand it on a passing run
    want   |-> IF ks # {} /\ CanHold(c) THEN WantData(c) ELSE f.data,
    \* a content that cannot be quoted as it is: the statement cannot be met; besides leaving the entry alone an
    \* implementation might store the content with the final newline added (tolerated, not predicted)
